@@ -440,7 +440,9 @@ def inferTyO (tys : List Ty) : Expr → Option Ty
   | .col i => some (tys.getD i .bigint)
   | .neg e => inferTyO tys e
   | .pos e => inferTyO tys e
-  | .arith _ a b => some (wider ((inferTyO tys a).getD .bool) ((inferTyO tys b).getD .bool))
+  | .arith _ a b => match inferTyO tys a, inferTyO tys b with
+    | none, none => none
+    | ta, tb => some (wider (ta.getD .bool) (tb.getD .bool))
   | .caseWhen parts => inferResults tys parts
   | .caseOf _ parts => inferResults tys parts
   | _ => some .bool
@@ -930,10 +932,88 @@ def execStmt (D : Defects) (nullsFirst : Bool) (db : Db) : Stmt → Db × Outcom
       | .error x => (db, .error x)
       | .ok (rows', n) => (setTable db t rows', .affected n)
 
+/-! ## Static typing of comparisons
+
+SQL is statically typed: comparing a number with a text (or a boolean) is an error of the statement, whatever the
+data.  (The engine finds it when the comparison meets two non-NULL values; generated cases always do.) -/
+
+/-- category of a type: numbers, texts, booleans -/
+def Ty.cat : Ty → Nat
+  | .int | .bigint => 0
+  | .text => 1
+  | .bool => 2
+
+/-- both sides have a known type and the categories differ.  `unk` = columns without a type (a group key or a
+    MIN / MAX over an untyped NULL): they clash with nothing -/
+def catClash (tys : List Ty) (unk : List Nat) (a b : Expr) : Bool :=
+  let isUnk : Expr → Bool := fun e => match e with | .col i => unk.contains i | _ => false
+  if isUnk a || isUnk b then false else
+  match inferTyO tys a, inferTyO tys b with
+  | some x, some y => x.cat != y.cat
+  | _, _ => false
+
+mutual
+/-- does the expression contain a comparison (=, <, BETWEEN, IN, simple CASE) across categories? -/
+def illTyped (tys : List Ty) (unk : List Nat) : Expr → Bool
+  | .lit _ | .col _ => false
+  | .not e | .neg e | .pos e | .isNull _ e => illTyped tys unk e
+  | .and a b | .or a b | .arith _ a b | .like _ a b => illTyped tys unk a || illTyped tys unk b
+  | .cmp _ a b => catClash tys unk a b || illTyped tys unk a || illTyped tys unk b
+  | .between _ e lo hi =>
+    catClash tys unk e lo || catClash tys unk e hi || illTyped tys unk e || illTyped tys unk lo || illTyped tys unk hi
+  | .inList _ e xs => illTyped tys unk e || clashAny tys unk e xs || illTypedList tys unk xs
+  | .caseWhen parts => illTypedList tys unk parts
+  | .caseOf x parts => illTyped tys unk x || clashWhens tys unk x parts || illTypedList tys unk parts
+def illTypedList (tys : List Ty) (unk : List Nat) : List Expr → Bool
+  | [] => false
+  | e :: es => illTyped tys unk e || illTypedList tys unk es
+def clashAny (tys : List Ty) (unk : List Nat) (e : Expr) : List Expr → Bool
+  | [] => false
+  | x :: xs => catClash tys unk e x || clashAny tys unk e xs
+/-- the WHEN values of a simple CASE (every other element of `parts`, not the last) -/
+def clashWhens (tys : List Ty) (unk : List Nat) (x : Expr) : List Expr → Bool
+  | c :: _ :: rest => catClash tys unk x c || clashWhens tys unk x rest
+  | _ => false
+end
+
+def illTypedOpt (tys : List Ty) (unk : List Nat) : Option Expr → Bool
+  | none => false
+  | some e => illTyped tys unk e
+
+def From.illTyped (db : Db) : From → Bool
+  | .table _ => false
+  | .join _ l r on => l.illTyped db || r.illTyped db || illTypedOpt (l.tys db ++ r.tys db) [] on
+
+/-- positions of the aggregate row without a type: keys and MIN / MAX arguments that are untyped NULLs -/
+def aggUnknown (tys : List Ty) (keys : List Expr) (aggs : List Agg) : List Nat :=
+  let ks := (List.range keys.length).filter (fun i => (inferTyO tys (keys.getD i (.lit .null))).isNone)
+  let as := (List.range aggs.length).filter (fun j =>
+    let a := aggs.getD j default
+    (a.fn == .min || a.fn == .max) && (inferTyO tys a.arg).isNone)
+  ks ++ as.map (· + keys.length)
+
+def stmtIllTyped (db : Db) : Stmt → Bool
+  | .select q =>
+    let tys := q.from_.tys db
+    let atys := if q.isAgg then aggTys tys q.groupBy q.aggs else tys
+    let unk := if q.isAgg then aggUnknown tys q.groupBy q.aggs else []
+    q.from_.illTyped db || illTypedOpt tys [] q.where_ || illTypedList tys [] q.groupBy
+      || illTypedList tys [] (q.aggs.map (·.arg)) || illTypedOpt atys unk q.having
+      || (match q.items with | none => false | some items => illTypedList atys unk items)
+  | .insert _ _ => false
+  | .update t sets w =>
+    let tys := (db.getD t default).tys
+    illTypedOpt tys [] w || illTypedList tys [] (sets.map (·.2))
+  | .delete t w => illTypedOpt (db.getD t default).tys [] w
+
+/-- a statement with a cross-category comparison is rejected with a type error and changes nothing -/
+def execStmtTyped (D : Defects) (nullsFirst : Bool) (db : Db) (s : Stmt) : Db × Outcome :=
+  if stmtIllTyped db s then (db, .error .type) else execStmt D nullsFirst db s
+
 def execAll (D : Defects) (nullsFirst : Bool) : Db → List Stmt → List Outcome
   | _, [] => []
   | db, s :: ss =>
-    let (db', o) := execStmt D nullsFirst db s
+    let (db', o) := execStmtTyped D nullsFirst db s
     o :: execAll D nullsFirst db' ss
 
 end AxVerif.Sql
